@@ -4,41 +4,89 @@ pub use methods::dispatch as pow;
 
 #[dispatch]
 mod methods {
-    use crate::CelValue;
+    use crate::{CelResult, CelValue};
 
-    fn pow(n1: i64, n2: i64) -> i64 {
-        n1.pow(n2 as u32)
+    fn pow(n1: i64, n2: i64) -> CelResult<i64> {
+        internal::int_pow(n1, internal::exp_from_i64(n2)?)
     }
 
-    fn pow(n1: i64, n2: u64) -> i64 {
-        n1.pow(n2 as u32)
+    fn pow(n1: i64, n2: u64) -> CelResult<i64> {
+        internal::int_pow(n1, internal::exp_from_u64(n2)?)
     }
 
-    fn pow(n1: i64, n2: f64) -> i64 {
-        n1.pow(n2 as u32)
+    fn pow(n1: i64, n2: f64) -> CelResult<i64> {
+        internal::int_pow(n1, internal::exp_from_f64(n2)?)
     }
 
-    fn pow(n1: u64, n2: i64) -> u64 {
-        n1.pow(n2 as u32)
+    fn pow(n1: u64, n2: i64) -> CelResult<u64> {
+        internal::uint_pow(n1, internal::exp_from_i64(n2)?)
     }
 
-    fn pow(n1: u64, n2: u64) -> u64 {
-        n1.pow(n2 as u32)
+    fn pow(n1: u64, n2: u64) -> CelResult<u64> {
+        internal::uint_pow(n1, internal::exp_from_u64(n2)?)
     }
 
-    fn pow(n1: u64, n2: f64) -> u64 {
-        n1.pow(n2 as u32)
+    fn pow(n1: u64, n2: f64) -> CelResult<u64> {
+        internal::uint_pow(n1, internal::exp_from_f64(n2)?)
     }
 
     fn pow(n1: f64, n2: i64) -> f64 {
-        n1.powi(n2 as i32)
+        match i32::try_from(n2) {
+            Ok(e) => n1.powi(e),
+            Err(_) => n1.powf(n2 as f64),
+        }
     }
 
     fn pow(n1: f64, n2: u64) -> f64 {
-        n1.powi(n2 as i32)
+        match i32::try_from(n2) {
+            Ok(e) => n1.powi(e),
+            Err(_) => n1.powf(n2 as f64),
+        }
     }
 
     fn pow(n1: f64, n2: f64) -> f64 {
         n1.powf(n2)
+    }
+
+    mod internal {
+        use crate::{CelError, CelResult};
+
+        // An integer power whose exponent does not fit u32 only stays in range for the
+        // bases -1, 0 and 1, where the exponent's parity is all that matters.
+        pub fn exp_from_u64(exp: u64) -> CelResult<u32> {
+            Ok(u32::try_from(exp).unwrap_or(u32::MAX - 1 + (exp % 2) as u32))
+        }
+
+        pub fn exp_from_i64(exp: i64) -> CelResult<u32> {
+            if exp < 0 {
+                return Err(CelError::value(
+                    "pow() of an integer requires a non-negative exponent",
+                ));
+            }
+            exp_from_u64(exp as u64)
+        }
+
+        pub fn exp_from_f64(exp: f64) -> CelResult<u32> {
+            if !(exp >= 0.0) || exp.is_infinite() {
+                return Err(CelError::value(
+                    "pow() of an integer requires a finite non-negative exponent",
+                ));
+            }
+            if exp >= u64::MAX as f64 {
+                // every double this large is an even integer
+                return Ok(u32::MAX - 1);
+            }
+            exp_from_u64(exp as u64)
+        }
+
+        pub fn int_pow(base: i64, exp: u32) -> CelResult<i64> {
+            base.checked_pow(exp)
+                .ok_or_else(|| CelError::value("pow() result is out of range"))
+        }
+
+        pub fn uint_pow(base: u64, exp: u32) -> CelResult<u64> {
+            base.checked_pow(exp)
+                .ok_or_else(|| CelError::value("pow() result is out of range"))
+        }
     }
 }
